@@ -458,7 +458,9 @@ static Verdict run_draw(const DCase &c) {
           // SATURATE with an opaque source is evaluated in floating point there and as OVER_REVERSE in 8 bits here
           if (!c.masked && c.op == PIXMAN_OP_SATURATE) {
             Ch ca = unpack(df, pa), cb = unpack(df, pb);
-            bool small = std::abs((int)ca.a - (int)cb.a) <= 1 && std::abs((int)ca.r - (int)cb.r) <= 1 && std::abs((int)ca.g - (int)cb.g) <= 1 && std::abs((int)ca.b - (int)cb.b) <= 1;
+            // (two steps at most: a source or glyph format with fewer than 8 bits per channel is widened as v/(2^n-1) by
+            // the float pipeline and by bit replication by the 8-bit one, on top of the different rounding)
+            bool small = std::abs((int)ca.a - (int)cb.a) <= 2 && std::abs((int)ca.r - (int)cb.r) <= 2 && std::abs((int)ca.g - (int)cb.g) <= 2 && std::abs((int)ca.b - (int)cb.b) <= 2;
             if (small) v.known = "S20";
           }
           v.fail(fmt("%s(op %d%s) differs from %s at (%d,%d): %x vs %x [%zu glyphs, dest %s]", c.masked ? "composite_glyphs" : "composite_glyphs_no_mask", c.op,
